@@ -56,7 +56,11 @@ pub mod encode {
 		fn custom<T: fmt::Display>(_: T) -> Self { Error::Syntax(String::new()) }
 	}
 	impl ModelErr for Error {
-		fn io(e: io::Error) -> Self { Error::InvalidValueWrite(e) }
+		fn io(e: io::Error) -> Self {
+			// the payload is never inspected by xt; dropping it symbolically is what makes CBMC explode
+			std::mem::forget(e);
+			Error::UnknownLength
+		}
 		fn syntax() -> Self { Error::InvalidDataModel("model") }
 	}
 }
